@@ -103,10 +103,7 @@ fn parse_write_request(data: &[u8]) -> Result<WriteRequest> {
             (1, 2) => {
                 let (length, new_pos) = read_varint(data, pos)?;
                 pos = new_pos;
-                let end = pos + length as usize;
-                if end > data.len() {
-                    return Err(crate::Error::InvalidSchema("Truncated timeseries".into()));
-                }
+                let end = field_end(data, pos, length, "timeseries")?;
                 let ts = parse_timeseries(&data[pos..end])?;
                 timeseries.push(ts);
                 pos = end;
@@ -124,7 +121,7 @@ fn parse_write_request(data: &[u8]) -> Result<WriteRequest> {
             (_, 2) => {
                 // Length-delimited
                 let (length, new_pos) = read_varint(data, pos)?;
-                pos = new_pos + length as usize;
+                pos = field_end(data, new_pos, length, "field")?;
             }
             (_, 5) => {
                 // 32-bit
@@ -160,10 +157,7 @@ fn parse_timeseries(data: &[u8]) -> Result<TimeSeries> {
             (1, 2) => {
                 let (length, new_pos) = read_varint(data, pos)?;
                 pos = new_pos;
-                let end = pos + length as usize;
-                if end > data.len() {
-                    return Err(crate::Error::InvalidSchema("Truncated label".into()));
-                }
+                let end = field_end(data, pos, length, "label")?;
                 let label = parse_label(&data[pos..end])?;
                 labels.push(label);
                 pos = end;
@@ -172,10 +166,7 @@ fn parse_timeseries(data: &[u8]) -> Result<TimeSeries> {
             (2, 2) => {
                 let (length, new_pos) = read_varint(data, pos)?;
                 pos = new_pos;
-                let end = pos + length as usize;
-                if end > data.len() {
-                    return Err(crate::Error::InvalidSchema("Truncated sample".into()));
-                }
+                let end = field_end(data, pos, length, "sample")?;
                 let sample = parse_sample(&data[pos..end])?;
                 samples.push(sample);
                 pos = end;
@@ -190,7 +181,7 @@ fn parse_timeseries(data: &[u8]) -> Result<TimeSeries> {
             }
             (_, 2) => {
                 let (length, new_pos) = read_varint(data, pos)?;
-                pos = new_pos + length as usize;
+                pos = field_end(data, new_pos, length, "field")?;
             }
             (_, 5) => {
                 pos += 4;
@@ -225,10 +216,7 @@ fn parse_label(data: &[u8]) -> Result<Label> {
             (1, 2) => {
                 let (length, new_pos) = read_varint(data, pos)?;
                 pos = new_pos;
-                let end = pos + length as usize;
-                if end > data.len() {
-                    return Err(crate::Error::InvalidSchema("Truncated label name".into()));
-                }
+                let end = field_end(data, pos, length, "label name")?;
                 name = String::from_utf8_lossy(&data[pos..end]).to_string();
                 pos = end;
             }
@@ -236,10 +224,7 @@ fn parse_label(data: &[u8]) -> Result<Label> {
             (2, 2) => {
                 let (length, new_pos) = read_varint(data, pos)?;
                 pos = new_pos;
-                let end = pos + length as usize;
-                if end > data.len() {
-                    return Err(crate::Error::InvalidSchema("Truncated label value".into()));
-                }
+                let end = field_end(data, pos, length, "label value")?;
                 value = String::from_utf8_lossy(&data[pos..end]).to_string();
                 pos = end;
             }
@@ -253,7 +238,7 @@ fn parse_label(data: &[u8]) -> Result<Label> {
             }
             (_, 2) => {
                 let (length, new_pos) = read_varint(data, pos)?;
-                pos = new_pos + length as usize;
+                pos = field_end(data, new_pos, length, "field")?;
             }
             (_, 5) => {
                 pos += 4;
@@ -309,7 +294,7 @@ fn parse_sample(data: &[u8]) -> Result<Sample> {
             }
             (_, 2) => {
                 let (length, new_pos) = read_varint(data, pos)?;
-                pos = new_pos + length as usize;
+                pos = field_end(data, new_pos, length, "field")?;
             }
             (_, 5) => {
                 pos += 4;
@@ -327,6 +312,16 @@ fn parse_sample(data: &[u8]) -> Result<Sample> {
         timestamp_ms,
         value,
     })
+}
+
+/// End offset of a length-delimited field starting at `pos`, or an error if the
+/// (untrusted) length does not fit into the remaining input.
+fn field_end(data: &[u8], pos: usize, length: u64, what: &str) -> Result<usize> {
+    usize::try_from(length)
+        .ok()
+        .and_then(|len| pos.checked_add(len))
+        .filter(|end| *end <= data.len())
+        .ok_or_else(|| crate::Error::InvalidSchema(format!("Truncated {}", what)))
 }
 
 /// Read a varint from the buffer, returning (value, new_position)
@@ -403,7 +398,12 @@ fn convert_prom_to_arrow(req: &WriteRequest) -> Result<RecordBatch> {
 
         for sample in &ts.samples {
             // Convert milliseconds to nanoseconds
-            timestamps.push(sample.timestamp_ms * 1_000_000);
+            timestamps.push(sample.timestamp_ms.checked_mul(1_000_000).ok_or_else(|| {
+                crate::Error::InvalidSchema(format!(
+                    "Sample timestamp {} ms is out of range",
+                    sample.timestamp_ms
+                ))
+            })?);
             metric_names.push(metric_name.clone());
 
             // Detect value type and route to appropriate column
